@@ -50,11 +50,13 @@ def make_spec(r, op, method, quick, force=None):
     Nmax = 40 if quick else 64
     lo = max(d + 3, 6)
     N = force.get("N") or r.range(lo, max(lo, r.choice([10, 20, Nmax])))
-    pts = _ll.gen_points(r, kind, N, D, r.choice([1, 1, Fraction(1, 64), 32]))
+    unit = _ll.pick_unit(r)
+    pts = _ll.gen_points(r, kind, N, D, unit)
     c = r.choice([0, 1, 2])
     k = 3 if c == 0 else (N - 1 if c == 1 else r.range(3, N - 1))
     k = force.get("k") or min(max(k, 3 if op == "embed" else 1), N - 1)
     spec = {
+        "unit": unit,
         "op": op, "method": method, "kind": kind, "D": D, "d": d, "pts": pts, "k": k,
         "metric": r.choice(["l2", "l2", "l1"]),
         "decade": r.range(-2, 10),            # width = median^2 * 10^(decade/2): six decades in half-decade steps
@@ -85,7 +87,7 @@ def build_line(spec):
     Dall = Dm
     if spec.get("dseed") is not None and not spec.get("asym"):
         dim = len(pts[0])
-        allp, sel = _ll.with_decoys(pts, spec["dseed"], lambda rr: [Fraction(rr.range(-1024, 1024), 128) for _ in range(dim)])
+        allp, sel = _ll.with_decoys(pts, spec["dseed"], lambda rr: [Fraction(rr.range(-1024, 1024), 128) * spec.get("unit", 1) for _ in range(dim)])
         Dall = _ll.distance_matrix(allp, spec["metric"])
     k = min(spec["k"], N - 1)
     if spec["op"] == "dm" or spec["method"] == "dm":
